@@ -90,15 +90,20 @@ def inst_release(cx, iid):
             writes.append((l, b.rvalue_expr(node["rv"]) if node["k"] == "assign" else b.call_expr(node)))
         for l, t in b.calls("usize::sub_assign"):
             writes.append((l, b.call_expr(t)))
+        # `mem::replace(&mut window[idx], Open)` yields the slot's previous content and re-opens it in one call
+        RPL = re.compile(r"mem::replace\((arg1\.window\[arg2\]),WindowEntry::Open\{\}\)")
+
+        def unrep(x):
+            return RPL.sub(r"\1", x)
         for l, e in writes:
             inst.site(b, l, "alloc -= " + show(e)[:70])
             here = fa.at(l) or [frozenset()]
             for alts, ce in case_values(cx, b, e):
                 for arm in ("Closed", "Active", "Open"):
                     lit = r"is\(arg1\.window\[arg2\],%s\)" % arm
-                    both = [frozenset(a) | frozenset(h) for a in alts for h in here]
+                    both = [frozenset(unrep(x) for x in a) | frozenset(unrep(x) for x in h) for a in alts for h in here]
                     if both and all(alt_satisfies(a, [lit]) for a in both):
-                        subs.setdefault(arm, []).append(show(ce))
+                        subs.setdefault(arm, []).append(unrep(show(ce)))
         for arm, want in (("Closed", r"arg1\.window\[arg2\]@Closed\.0"), ("Active", r"arg1\.window\[arg2\]@Active\.0\.alloc_size")):
             got = subs.get(arm, [])
             if len(got) != 1 or not re.fullmatch(r"(sub\(arg1\.alloc,%s\)|usize::sub_assign\(arg1\.alloc,%s\))" % (want, want), got[0]):
@@ -107,6 +112,7 @@ def inst_release(cx, iid):
             if not re.fullmatch(r"(sub\(arg1\.alloc,0\)|usize::sub_assign\(arg1\.alloc,0\))", v):
                 inst.violation(b.path, "Open arm release", "clearing an Open slot changes the counter (%s)" % v)
         opens = [l for l, node, ps in b.field_writes(r"arg1\.window\[arg2\]") if node["k"] == "assign" and show(b.rvalue_expr(node["rv"])) == "WindowEntry::Open{}"]
+        opens += [l for l, t in b.calls("mem::replace") if RPL.fullmatch(show(b.call_expr(t)))]
         cx.followed_by(inst, b, [(Loc(0, -1), "entry of clear()")], opens, "slot not re-opened", "window[idx] = Open")
         callers = [ob.path for ob in R.all_bodies() if call_sites(ob, AW + "clear")]
         inst.site(b, None, "callers of clear: %s" % [c.split("::")[-1] for c in callers])
@@ -233,7 +239,7 @@ def inst_sender_alloc_pair(cx, iid):
         for l, node, ps in ws:
             v = show(a.rvalue_expr(node["rv"])) if node["k"] == "assign" else show(a.call_expr(node))
             inst.site(a, l, "alloc = " + v[:110])
-            if not re.fullmatch(r"sub\(arg1\.alloc,Option::unwrap\(%s\)\.alloc_size\)" % IDX, v):
+            if not re.fullmatch(r"sub\(arg1\.alloc,(?:Option::unwrap\(%s\)|Option::unwrap\(Option::take\(%s\)\))\.alloc_size\)" % (IDX, IDX), v):
                 inst.violation(a.path, "alloc refund", "acknowledge updates alloc by `%s`, expected alloc - (released entry).alloc_size" % v[:160], at=a.span_at(l))
         if len(ws) != 1:
             inst.violation(a.path, "alloc refund count", "acknowledge writes alloc at %d sites, expected one" % len(ws))
@@ -241,10 +247,19 @@ def inst_sender_alloc_pair(cx, iid):
         rel = [l for l, node, ps in a.field_writes(IDX) if node["k"] == "assign" and show(a.rvalue_expr(node["rv"])) == "None{}"]
         for l in rel:
             inst.site(a, l, "window[base] = None")
-        if ws:
-            cx.followed_by(inst, a, [(ws[0][0], "alloc refund")], rel, "refund without releasing the slot", "window[base & mask] = None")
-        if rel and ws:
-            cx.preceded_by(inst, a, [(l, "window[base] = None") for l in rel], [ws[0][0]], "slot released without refund", "alloc -= entry.alloc_size")
+        # `let entry = window[idx].take().unwrap()`: reading the entry and vacating the slot are one call
+        takes = [l for l, t in a.calls("Option::take") if re.fullmatch(r"Option::take\(%s\)" % IDX, show(a.call_expr(t)))]
+        for l in takes:
+            inst.site(a, l, "window[base].take()")
+        if takes and not rel:
+            if ws:
+                cx.preceded_by(inst, a, [(ws[0][0], "alloc refund")], takes, "refund without releasing the slot", "window[base & mask].take()")
+                cx.followed_by(inst, a, [(l, "window[base].take()") for l in takes], [ws[0][0]], "slot released without refund", "alloc -= entry.alloc_size")
+        else:
+            if ws:
+                cx.followed_by(inst, a, [(ws[0][0], "alloc refund")], rel, "refund without releasing the slot", "window[base & mask] = None")
+            if rel and ws:
+                cx.preceded_by(inst, a, [(l, "window[base] = None") for l in rel], [ws[0][0]], "slot released without refund", "alloc -= entry.alloc_size")
         for ob in R.all_bodies():
             if ob.path.startswith(PS) and ob.path not in (e.path, a.path):
                 for l, node, ps in ob.field_writes(r"arg1\.alloc"):
